@@ -72,7 +72,7 @@ type replayT struct {
 	// tamper-pair: a second byte (Offset2) is changed with the same mask
 	Pair    bool `json:"pair,omitempty"`
 	Offset2 int  `json:"offset2,omitempty"`
-	Size   int `json:"file_size,omitempty"`
+	Size    int  `json:"file_size,omitempty"`
 	// path
 	Target string   `json:"target,omitempty"`
 	PathOp string   `json:"path_op,omitempty"`
@@ -695,7 +695,6 @@ func replayClear(c replayT) {
 }
 
 // ---------------------------------------------------------------- main
-
 
 func main() {
 	parts := flag.String("parts", "", "comma-separated parts to run: clear,bind,tamper,path,modes (default: all)")
